@@ -19,6 +19,7 @@ const CTRL_REQUEST: u8 = (1 << 4) | (3 << 1); // mtin = request, mstp = control
 
 #[derive(Clone)]
 struct Msg {
+    index: u32, // the message's index FIELD (identity is the position in the input = uid, tagged in the payload)
     ecu: String,
     lc: u32, // abstract lifecycle id (0 / an id missing in the table = unknown lifecycle)
     rx: i64, // ticks relative to base
@@ -45,7 +46,7 @@ fn tag_payload(i: usize, rng_byte: u8) -> Vec<u8> {
 fn build_msg(c: &Case, i: usize, m: &Msg, real_lc: LifecycleId) -> DltMessage {
     let rx_us = (c.base_us as i64 + m.rx * c.tick_us as i64) as u64;
     let ts_dms = (m.ts as u64 * c.tick_us / 100) as u32;
-    let mut dm = mk_msg(i as u32, &m.ecu, rx_us, ts_dms, tag_payload(i, (i * 7) as u8));
+    let mut dm = mk_msg(m.index, &m.ecu, rx_us, ts_dms, tag_payload(i, (i * 7) as u8));
     dm.lifecycle = real_lc;
     if m.ctrl {
         dm.extended_header.as_mut().unwrap().verb_mstp_mtin = CTRL_REQUEST;
@@ -54,7 +55,7 @@ fn build_msg(c: &Case, i: usize, m: &Msg, real_lc: LifecycleId) -> DltMessage {
 }
 
 fn hdr_json(c: &Case, case: u64, extra: Value) -> Value {
-    let msgs: Vec<Value> = c.msgs.iter().map(|m| json!({"ecu":m.ecu,"lc":m.lc,"rx":m.rx,"ts":m.ts,"ctrl":m.ctrl})).collect();
+    let msgs: Vec<Value> = c.msgs.iter().map(|m| json!({"index":m.index,"ecu":m.ecu,"lc":m.lc,"rx":m.rx,"ts":m.ts,"ctrl":m.ctrl})).collect();
     let table: Vec<Value> = c.table.iter().map(|(id, s)| json!({"id":id,"start":s})).collect();
     json!({"ev":"reset","case":case,"hdr":{"kind":c.kind,"W":c.w,"D":c.d,"base":(c.base_us / c.tick_us),"tick_us":c.tick_us,
            "table":table,"msgs":msgs,"info":extra}})
@@ -67,7 +68,7 @@ enum Outcome {
 }
 
 /// run the real sorter; returns the observed (idx, intact) sequence and how the call ended
-fn run_sorter<M, S>(input: &[DltMessage], lcs_r: &evmap::ReadHandle<LifecycleId, LifecycleItem, M, S>, w: u8, d_us: u64) -> (Vec<(i64, bool)>, Outcome)
+fn run_sorter<M, S>(input: &[DltMessage], lcs_r: &evmap::ReadHandle<LifecycleId, LifecycleItem, M, S>, w: u8, d_us: u64) -> (Vec<(i64, u32, bool)>, Outcome)
 where
     S: std::hash::BuildHasher + Clone,
     M: 'static + Clone,
@@ -96,7 +97,7 @@ where
         .map(|m| {
             let idx = if m.payload.len() >= 4 { u32::from_le_bytes(m.payload[0..4].try_into().unwrap()) as i64 } else { -1 };
             let known = idx >= 0 && (idx as usize) < input.len();
-            (if known { idx } else { -1 }, known && input[idx as usize] == m)
+            (if known { idx } else { -1 }, m.index, known && input[idx as usize] == m)
         })
         .collect();
     (
@@ -110,7 +111,7 @@ where
 }
 
 /// build the lifecycle table (driver-built: Lifecycle::new + public start_time) and the concrete messages, run the sorter
-fn exec_case(c: &Case) -> (Vec<(i64, bool)>, Outcome) {
+fn exec_case(c: &Case) -> (Vec<(i64, u32, bool)>, Outcome) {
     let (lcs_r, mut lcs_w) = evmap::new::<LifecycleId, LifecycleItem>();
     let mut real: HashMap<u32, LifecycleId> = HashMap::new();
     for (id, start) in &c.table {
@@ -137,10 +138,10 @@ fn exec_case(c: &Case) -> (Vec<(i64, bool)>, Outcome) {
     r
 }
 
-fn write_case(t: &mut Trace, case: u64, c: &Case, obs: &[(i64, bool)], oc: &Outcome, extra: Value) {
+fn write_case(t: &mut Trace, case: u64, c: &Case, obs: &[(i64, u32, bool)], oc: &Outcome, extra: Value) {
     t.ev(hdr_json(c, case, extra));
-    for (idx, intact) in obs {
-        t.ev(json!({"ev":"out","idx":idx,"intact":intact}));
+    for (uid, index, intact) in obs {
+        t.ev(json!({"ev":"out","uid":uid,"index":index,"intact":intact}));
     }
     match oc {
         Outcome::End => t.ev(json!({"ev":"end"})),
@@ -223,12 +224,67 @@ fn gen_rand(rng: &mut Rng, max_len: u64) -> Case {
         }
         let ts = ts.max(0); // (a reception time that ran backwards below the lifecycle start)
         let mlc = if missing && rng.chance(1, 4) { if rng.chance(1, 2) { 0 } else { 900 + lc } } else { lc };
-        msgs.push(Msg { ecu: eg.name.clone(), lc: mlc, rx, ts, ctrl });
+        msgs.push(Msg { index: msgs.len() as u32, ecu: eg.name.clone(), lc: mlc, rx, ts, ctrl });
     }
     if missing && rng.chance(1, 4) {
         table.clear(); // empty table: every lifecycle unknown
     }
     Case { kind: "rand", w, d, tick_us, base_us, table, msgs }
+}
+
+/// index fields that are not a consecutive numbering: never assigned (all 0), per-ECU numbering from 0, a few repeated
+/// values, unique but unordered; plus "twins" (a message repeating the previous one's times) so that equal
+/// calculated times occur together with equal index fields. The permutation claim covers all of these inputs.
+fn gen_dup(rng: &mut Rng, max_len: u64) -> Case {
+    let mut c = gen_rand(rng, max_len);
+    c.kind = "dup";
+    // twins: same ecu / lifecycle / rx / ts as the predecessor
+    for i in 1..c.msgs.len() {
+        if rng.chance(1, 3) {
+            c.msgs[i] = c.msgs[i - 1].clone();
+        }
+    }
+    let mode = rng.below(4);
+    let mut per_ecu: HashMap<String, u32> = HashMap::new();
+    let n = c.msgs.len() as u32;
+    for (i, m) in c.msgs.iter_mut().enumerate() {
+        m.index = match mode {
+            0 => 0,
+            1 => {
+                let e = per_ecu.entry(m.ecu.clone()).or_insert(0);
+                *e += 1;
+                *e - 1
+            }
+            2 => rng.below(3) as u32,
+            _ => n - i as u32 + rng.below(2) as u32, // decreasing with repeats
+        };
+    }
+    c
+}
+
+/// merged sources: k ECUs (one lifecycle each, same start), each numbered from 0, emitting in lock step with equal
+/// calculated times - what merging several files that were indexed separately looks like
+fn gen_merged(rng: &mut Rng, max_len: u64) -> Case {
+    let tick_us: u64 = 1_000_000;
+    let w = rng.range(1, 5) as u8;
+    let d = *rng.pick(&[0i64, 1, 2, 5, 20]);
+    let k = rng.range(2, 4) as usize;
+    let rounds = (rng.range(1, max_len.max(2)) as usize / k).max(1);
+    let start = 900;
+    let table: Vec<(u32, i64)> = (0..k).map(|e| (e as u32 + 1, start)).collect();
+    let mut rx: i64 = 2000;
+    let mut msgs = Vec::new();
+    for r in 0..rounds {
+        rx += rng.range(0, 3) as i64;
+        let delay = if d > 0 { rng.range(0, d as u64) as i64 } else { 0 };
+        for e in 0..k {
+            if rng.chance(1, 10) {
+                continue; // a source pauses: the numberings drift apart
+            }
+            msgs.push(Msg { index: r as u32, ecu: format!("EC{}", (b'A' + e as u8) as char), lc: e as u32 + 1, rx, ts: rx - delay - start, ctrl: false });
+        }
+    }
+    Case { kind: "dup", w, d, tick_us, base_us: BASE_US, table, msgs }
 }
 
 /// clean boots on a few ECUs, table produced by the real lifecycle detector run to completion before sorting
@@ -255,7 +311,7 @@ fn gen_det(rng: &mut Rng, max_len: u64) -> Option<(Case, Vec<DltMessage>, evmap:
         }
         let delay = if jitter == 0 { 0 } else { rng.range(0, jitter as u64) as i64 };
         let ts = (rx - delay - boot[e]).max(0);
-        let m = Msg { ecu: format!("EC{}", (b'A' + e as u8) as char), lc: 0, rx, ts, ctrl: false };
+        let m = Msg { index: i as u32, ecu: format!("EC{}", (b'A' + e as u8) as char), lc: 0, rx, ts, ctrl: false };
         raw.push(build_msg(&c0, i, &m, 0));
     }
     // the real detector, to completion, unbounded channels
@@ -300,6 +356,7 @@ fn gen_det(rng: &mut Rng, max_len: u64) -> Option<(Case, Vec<DltMessage>, evmap:
                 }
             };
             c.msgs.push(Msg {
+                index: i as u32,
                 ecu: format!("{}", m.ecu),
                 lc: pos as u32 + 1,
                 rx: (m.reception_time_us as i64 - BASE_US as i64) / tick_us as i64,
@@ -319,7 +376,7 @@ fn main() {
     let mut t = Trace::create(&a.str("--out", "trace.ndjson"));
     let mut case = a.num("--first-case", 0);
     let mut rng = Rng::new(a.num("--seed", 1));
-    let (mut replayed, mut fast, mut slow, mut drift, mut sampled) = (0u64, 0u64, 0u64, 0u64, 0u64);
+    let (mut replayed, mut fast, mut slow, mut drift, mut sampled, mut drift_dup) = (0u64, 0u64, 0u64, 0u64, 0u64, 0u64);
     if let Some(f) = a.get("--scenarios") {
         // streamed line by line (thorough emits > 10^6 scenarios)
         use std::io::BufRead;
@@ -331,7 +388,7 @@ fn main() {
             // (tick_us / base / kind are only present in replay files written by the check from a recorded case)
             let tick_us = scn["tick_us"].as_u64().unwrap_or(TICK_US);
             let c = Case {
-                kind: match scn["kind"].as_str() { Some("rand") => "rand", Some("det") => "det", _ => "scn" },
+                kind: match scn["kind"].as_str() { Some("rand") => "rand", Some("det") => "det", Some("dup") => "dup", _ => "scn" },
                 w: scn["w"].as_u64().unwrap() as u8,
                 d: scn["d"].as_i64().unwrap(),
                 tick_us,
@@ -341,7 +398,9 @@ fn main() {
                     .as_array()
                     .unwrap()
                     .iter()
-                    .map(|m| Msg {
+                    .enumerate()
+                    .map(|(i, m)| Msg {
+                        index: m["index"].as_u64().unwrap_or(i as u64) as u32,
                         ecu: m["ecu"].as_str().unwrap().to_string(),
                         lc: m["lc"].as_u64().unwrap() as u32,
                         rx: m["rx"].as_i64().unwrap(),
@@ -354,9 +413,11 @@ fn main() {
             let contract_ok = scn["contract_ok"].as_bool().unwrap();
             let (obs, oc) = exec_case(&c);
             replayed += 1;
-            let same = matches!(oc, Outcome::End) && obs.len() == pred.len() && obs.iter().zip(pred.iter()).all(|(o, p)| o.0 == *p && o.1);
+            let same = matches!(oc, Outcome::End) && obs.len() == pred.len() && obs.iter().zip(pred.iter()).all(|(o, p)| o.0 == *p && o.2);
+            // with repeated index fields the heap's order among equal (calc, index) is unspecified: such a drift is expected
+            let dup_mode = scn["index_mode"].as_str().map(|s| s != "pos").unwrap_or(false);
             if !same {
-                drift += 1;
+                if dup_mode { drift_dup += 1 } else { drift += 1 }
             }
             let sample = (k as u64) % every == off;
             if same && contract_ok && !sample {
@@ -380,6 +441,15 @@ fn main() {
         write_case(&mut t, case, &c, &obs, &oc, json!({}));
         case += 1;
     }
+    // cases with repeated / unset / unordered index fields: their own generator stream, so the cases above stay the same
+    let n_dup = a.num("--dup", 0);
+    let mut rng_dup = Rng::new(a.num("--seed", 1) ^ 0xD0_D0D0);
+    for k in 0..n_dup {
+        let c = if k % 3 == 2 { gen_merged(&mut rng_dup, max_len) } else { gen_dup(&mut rng_dup, max_len) };
+        let (obs, oc) = exec_case(&c);
+        write_case(&mut t, case, &c, &obs, &oc, json!({}));
+        case += 1;
+    }
     let (mut det_done, mut det_skipped) = (0u64, 0u64);
     for _ in 0..n_det {
         match gen_det(&mut rng, max_len) {
@@ -396,7 +466,7 @@ fn main() {
     t.flush();
     println!(
         "{}",
-        json!({"cases": case, "lines": t.lines, "replayed": replayed, "fast_path": fast, "slow_path": slow, "drift": drift,
+        json!({"cases": case, "lines": t.lines, "replayed": replayed, "fast_path": fast, "slow_path": slow, "drift": drift, "drift_dup_index": drift_dup, "dup": n_dup,
                "sampled": sampled, "random": n_random, "det": det_done, "det_skipped": det_skipped})
     );
 }
